@@ -39,6 +39,8 @@ void harness::run_case(const eng::Raw& raw, eng::Ctx& ctx)
 	lim.maxStates = ctx.tier() ? 8 : 6;
 	lim.arity3 = true;
 	gen::TACase c = gen::decode_ta(raw, lim, false);
+	const std::string largeTag = gen::enlarge(c, false);
+	if (!largeTag.empty()) ctx.tag(largeTag);
 	const ref::TA V = tc::lib_view(c.A, c.num);
 	const std::set<int> st = V.states();
 
@@ -62,7 +64,7 @@ void harness::run_case(const eng::Raw& raw, eng::Ctx& ctx)
 	for (auto& kv : h) hs += " " + std::to_string(kv.first) + "->" + std::to_string(kv.second);
 	static const char* kinds[] = {"identity", "injective", "merging", "sparse"};
 	ctx.describe(std::string("state map (") + kinds[kind] + "):" + hs + "\n" + gen::describe_ta(c));
-	ctx.small_case(true);
+	ctx.small_case(largeTag.empty());
 	ctx.tag(std::string("map:") + kinds[kind]);
 
 	bool injective = true;
@@ -144,6 +146,23 @@ void harness::run_case(const eng::Raw& raw, eng::Ctx& ctx)
 		for (int q : st) if (!hm.count(q)) total = false;
 		if (!total) ctx.fail("reindex-weak:map-incomplete", "the translator does not contain every used state afterwards");
 		else expect_exact(ctx, "reindex-weak", lib::read(r), V.image(hm), "ReindexStates(weak translator)");
+
+		// the SAME translator object used again after its map was changed from outside (what SanitizeAutsForInclusion
+		// does with one translator for its two operands): the second result is the image under the map as it is then
+		if (total && (c.header[6] >> 12) % 2) {
+			const bool cleared = (c.header[6] >> 13) % 2;
+			if (cleared) m.clear();
+			else { StateType bump = 50000; for (auto& kv : m) kv.second = bump++; }     // every entry overwritten (still injective)
+			ExplicitTreeAut r3;
+			{ eng::LibSection ls(ctx, "ReindexStates(weak-reused)"); r3 = a.ReindexStates(tr); }
+			std::map<int,int> hm3;
+			for (auto& kv : m) hm3[static_cast<int>(kv.first)] = static_cast<int>(kv.second);
+			bool total3 = true;
+			for (int q : st) if (!hm3.count(q)) total3 = false;
+			if (!total3) ctx.fail("reindex-weak-reused:map-incomplete", "after the second call with the same translator the map lacks a used state");
+			else expect_exact(ctx, "reindex-weak-reused", lib::read(r3), V.image(hm3), cleared ? "ReindexStates(translator re-used after its map was cleared)" : "ReindexStates(translator re-used after its map was overwritten)");
+			ctx.count("translator_reused");
+		}
 
 		VATA::AutBase::StateToStateMap m2;
 		for (auto& kv : h) m2[static_cast<StateType>(kv.first)] = static_cast<StateType>(kv.second);
